@@ -58,10 +58,13 @@ def case_strategy(draw, tier="quick"):
     flushed = 0             # record count every rank is guaranteed to see (as of the last flush point)
     own_top = [0] * k       # ... plus what the rank has written itself since
     pend = [[] for _ in range(k)]
+    ipend = False           # nonblocking puts posted and not yet waited for
     nsteps = draw(st.integers(4, 14 if not big else 24))
     rid = 0
     for _ in range(nsteps):
-        kind = draw(st.sampled_from(["write", "write", "write", "iwrite", "read", "flushpoint", "mode"]))
+        kind = draw(st.sampled_from(["write", "write", "write", "iwrite", "read", "iread", "flushpoint", "mode"]))
+        if kind == "iread" and (indep or ipend):
+            kind = "read"
         if kind == "mode":
             if pend_top:
                 continue
@@ -83,6 +86,7 @@ def case_strategy(draw, tier="quick"):
                 d[...] = False
             for r in range(k):
                 pend[r] = []
+            ipend = False
             continue
         vi = draw(st.integers(0, nv - 1))
         v = sch["vars"][vi]
@@ -133,6 +137,8 @@ def case_strategy(draw, tier="quick"):
                     else:
                         pend_top = max(pend_top, int(idx[:, 0].max()) + 1)
             steps.append({"op": kind, "indep": indep, "reqs": reqs})
+            if kind == "iwrite":
+                ipend = True
         else:
             # a rank is only guaranteed to see the records flushed so far plus those it wrote itself
             readers = list(range(k)) if not indep else draw(st.lists(st.integers(0, k - 1), min_size=1, max_size=k, unique=True))
@@ -160,6 +166,14 @@ def case_strategy(draw, tier="quick"):
                     rq = draw(req_for(v, vi, shape, s, c, sd, is_rec, shape[0] if is_rec else 0, form="vars", mtsel=mtsel))
                 reqs[str(r)] = rq
             if skip:
+                continue
+            if kind == "iread":
+                # nonblocking reads completed by a collective wait: the wait flushes every rank's log, so it is a flush point
+                steps.append({"op": "iread", "reqs": reqs, "wait": draw(st.sampled_from(["ALL", "GETALL", "ids"]))})
+                flushed = numrecs
+                own_top = [numrecs] * k
+                for d in dirty:
+                    d[...] = False
                 continue
             steps.append({"op": "read", "indep": indep, "reqs": reqs})
     return {"schema": sch, "k": k, "cfg": cfg, "steps": steps}
@@ -247,6 +261,35 @@ def build(case, bb=True):
                 p.check(lambda res, nd=nd, snap=copy.deepcopy(fm), how=how: sum([compare_dump(res.get(nd, r), snap, "after %s rank %d" % (how, r)) for r in range(k)], []))
             continue
         reqs = stp["reqs"]
+        if op == "iread":
+            labels.add("iget_wait_" + stp["wait"])
+            info["nontrivial"] = info["nontrivial"] or any(since[r] for r in range(k))
+            posted = []
+            for r in range(k):
+                rq = reqs.get(str(r))
+                if rq is None:
+                    continue
+                view = _rank_view(fm, since, r)
+                q = p.newreq()
+                n, slot, verify = p.get(view, r, rq, fm.numrecs, api="iget", reqslot=q)
+                posted.append((r, q, slot, verify))
+            sn = p.s.same_n()
+            for r in range(k):
+                mine = [q for (rr, q, _, _) in posted if rr == r]
+                toks = ",".join(mine) if (stp["wait"] == "ids" and mine) else ("GETALL" if stp["wait"] != "ALL" else "ALL")
+                p.s.op("wait", ranks=[r], sn=sn, step=True, f="f0", coll=1, reqs=toks, st=0)
+            p.expect_rc(sn, range(k), [0, M.E["ERANGE"]], "wait_all completing igets")
+            # the collective wait flushed every log: all earlier blocking writes of all ranks are visible to everybody
+            for r in range(k):
+                since[r] = []
+            logged = [0] * k
+            for (r, q, slot, verify) in posted:
+                nb = p.s.op("bufchk", ranks=[r], b=slot)
+                verify.refresh(fm)
+                p.check(lambda res, nb=nb, vf=verify: vf(res, nb))
+            if k > 1:
+                p.op("barrier", expect=None)
+            continue
         if op in ("write", "iwrite"):
             sn = p.s.same_n() if (op == "write" and not stp["indep"]) else None
             nview = fm.numrecs
